@@ -37,7 +37,14 @@ Exp == [
     FF     |-> <<255>>,                     \* invalid UTF-8
     EFBB   |-> <<239, 187>>,                \* partial BOM
     eacute |-> <<195, 169>>,                \* a two-byte rune
-    TAB    |-> <<9>>
+    TAB    |-> <<9>>,
+    \* bytes and runes that Unicode-aware helpers (unicode.IsSpace, strings.TrimSpace / Fields, bufio.ScanLines) treat as
+    \* white space or line breaks but the event-stream format does not: they are ordinary field bytes
+    VT     |-> <<11>>,
+    FORMFEED |-> <<12>>,
+    NEL    |-> <<194, 133>>,                \* U+0085 next line
+    NBSP   |-> <<194, 160>>,                \* U+00A0 no-break space
+    LS     |-> <<226, 128, 168>>            \* U+2028 line separator
 ]
 
 \* filler runs: one token each, so TLC never holds long sequences; byte 97 ("a") repeated
